@@ -218,6 +218,16 @@ def update_rp(draw, d, v, kind=None):
         body['parent_provider_uuid'] = u
     elif kind == 'missing-parent':
         body['parent_provider_uuid'] = GHOST_RP
+    if kind in ('loop', 'self', 'reparent', 'same-parent') and \
+            body.get('parent_provider_uuid') and \
+            draw(st.integers(0, 9)) < 2:
+        # an unusual but schema-valid spelling of an existing provider's
+        # UUID names no stored provider (UUIDs are stored canonically)
+        pu = body['parent_provider_uuid']
+        body['parent_provider_uuid'] = draw(st.sampled_from(
+            [pu.upper(), pu.replace('-', '')]))
+        labels.append('odd-spelling')
+        kind = 'missing-parent'
     labels.append(kind)
     if kind in ('reparent', 'unparent', 'first-parent'):
         n = len(descendants(d, u)) + 1
@@ -246,7 +256,8 @@ def delete_rp(draw, d, v, u=None):
 def _gen_for(draw, d, u, defect):
     g = d.providers[u]['generation'] if u in d.providers else 0
     if defect == 'stale-gen':
-        return g - 1 if draw(st.booleans()) else g + 1
+        return draw(st.sampled_from([g - 1, g + 1, 0 if g > 0 else g + 2,
+                                     -1]))
     return g
 
 
